@@ -1021,7 +1021,9 @@ class _CxIfPathSegmentLiteral(_CxParent):
         self._literal = literal
 
     def src(self, indentation: int) -> str:
-        template = "{0}if path[{1}] == '{2}':\n{3}"
+        # NOTE: Use repr() so that quotes and backslashes in the literal
+        #   cannot break, or alter the meaning of, the generated source.
+        template = '{0}if path[{1}] == {2!r}:\n{3}'
         return template.format(
             _TAB_STR * indentation,
             self._segment_idx,
